@@ -39,7 +39,14 @@ func cmdSelftestDeterminism(args []string) int {
 	cfgs := []cfg{{"1x1", 1, "1"}, {"1x1-again", 1, "1"}, {"4x4", 4, "4"}, {"16x16", 16, "16"}}
 	bad := 0
 	procs := 0
-	for _, seed := range []uint64{1, 7} {
+	type pass struct {
+		seed uint64
+		tier string
+	}
+	// the thorough tier generates other scenarios (several faults per line, more
+	// schedules): one pass of it as well
+	for _, ps := range []pass{{1, "quick"}, {7, "quick"}, {3, "thorough"}} {
+		seed := ps.seed
 		for _, prop := range props {
 			results := make([]map[string]string, len(cfgs))
 			for ci, c := range cfgs {
@@ -53,7 +60,7 @@ func cmdSelftestDeterminism(args []string) int {
 					go func(w int) {
 						defer wg.Done()
 						out := filepath.Join(ws.Dir, fmt.Sprintf("h-%s-%d-%d.json", prop, ci, w))
-						cmd := exec.Command(ws.Exec, "run", "--prop", prop, "--seed", fmt.Sprint(seed), "--worker", fmt.Sprint(w), "--workers", fmt.Sprint(c.workers),
+						cmd := exec.Command(ws.Exec, "run", "--prop", prop, "--tier", ps.tier, "--seed", fmt.Sprint(seed), "--worker", fmt.Sprint(w), "--workers", fmt.Sprint(c.workers),
 							"--count", fmt.Sprint(*count), "--out", os.DevNull, "--hashes", out, "--replays", filepath.Join(ws.Dir, "replays"))
 						cmd.Env = append(os.Environ(), "GOMAXPROCS="+c.maxprocs)
 						if o, err := cmd.CombinedOutput(); err != nil {
@@ -95,7 +102,7 @@ func cmdSelftestDeterminism(args []string) int {
 					}
 				}
 			}
-			fmt.Printf("selftest-determinism: %s seed=%d: %d scenarios x %d configurations, %d differing\n", prop, seed, len(results[0]), len(cfgs), diff)
+			fmt.Printf("selftest-determinism: %s seed=%d tier=%s: %d scenarios x %d configurations, %d differing\n", prop, seed, ps.tier, len(results[0]), len(cfgs), diff)
 			if diff > 0 || len(results[0]) == 0 {
 				bad++
 			}
